@@ -21,5 +21,5 @@ for p in $checks; do
   if [ $rc -ne 0 ]; then fail=1; echo "$p: exit $rc"; echo "$out" | grep -E "VIOLATION|trouble|FAILED|panic|nondetermin" | head -5; else echo "$p: quiet"; fi
 done
 [ -n "$made" ] && git -C /repo worktree remove --force $wt
-rm -f .build/sim-*.test .build/go-*
+t=$(echo "$wt" | md5sum | cut -c1-8); rm -f .build/sim-$t.test .build/sim-$t-race.test .build/go-$t.mod .build/go-$t.sum
 exit $fail
